@@ -30,52 +30,60 @@ Matches == /\ prepT \in {None, "file"}
            /\ prepL \in {None, "file"}
 
 \* t: "file" or "other" (a supported type different from the file's), es2: error state after the call
-SetType(t, ret, es2) ==
+\* fault: an environment fault (a refused allocation, a failing system call) hit this call: it may fail, but what it reports
+\* must still be true - a setter that returns 1 has put its pin in force, an accepted lead carries the pinned values
+SetTypeX(t, ret, es2, fault) ==
     /\ phase = "fresh"
     /\ ret = 1 => prepD = None             \* the type must be pinned before the digest
-    /\ (es = 0 /\ prepD = None) => ret = 1
+    /\ (~fault /\ es = 0 /\ prepD = None) => ret = 1
     /\ prepT' = IF ret = 1 THEN t ELSE prepT
     /\ es' = es2 /\ UNCHANGED <<prepD, prepL, phase, atStart>>
+SetType(t, ret, es2) == SetTypeX(t, ret, es2, FALSE)
 
 \* facts: rightlen = the string has exactly 2*digest_size(pinned type) characters,
 \*        allhex   = every character is in 0-9a-fA-F,
 \*        eq       = it denotes the file's stored header checksum
-SetDigest(rightlen, allhex, eq, ret, es2) ==
+SetDigestX(rightlen, allhex, eq, ret, es2, fault) ==
     /\ phase = "fresh"
     /\ ret = 1 => (prepT # None /\ rightlen /\ allhex)
-    /\ (es = 0 /\ prepT # None /\ rightlen /\ allhex) => ret = 1
+    /\ (~fault /\ es = 0 /\ prepT # None /\ rightlen /\ allhex) => ret = 1
     /\ prepD' = IF ret = 1 THEN (IF eq /\ prepT = "file" THEN "file" ELSE "other") ELSE prepD
     /\ es' = es2 /\ UNCHANGED <<prepT, prepL, phase, atStart>>
+SetDigest(rightlen, allhex, eq, ret, es2) == SetDigestX(rightlen, allhex, eq, ret, es2, FALSE)
 
-SetLen(l, ret, es2) ==
+SetLenX(l, ret, es2, fault) ==
     /\ phase = "fresh"
-    /\ es = 0 => ret = 1
+    /\ (~fault /\ es = 0) => ret = 1
     /\ prepL' = IF ret = 1 THEN l ELSE prepL
     /\ es' = es2 /\ UNCHANGED <<prepT, prepD, phase, atStart>>
+SetLen(l, ret, es2) == SetLenX(l, ret, es2, FALSE)
 
 \* lead-only validation: same verdict as reading the lead, consumes nothing, changes nothing
-ValidateLead(leadOk, ret, es2, posAfter) ==
+ValidateLeadX(leadOk, ret, es2, posAfter, fault) ==
     /\ phase = "fresh"
     /\ ret = 1 => (leadOk /\ Matches)
-    /\ (es = 0 /\ atStart /\ leadOk /\ Matches) => ret = 1
-    /\ (es = 0 /\ atStart) => posAfter = 0                      \* does not consume
+    /\ (~fault /\ es = 0 /\ atStart /\ leadOk /\ Matches) => ret = 1
+    /\ (~fault /\ es = 0 /\ atStart) => posAfter = 0                      \* does not consume
     /\ atStart' = (posAfter = 0)
     /\ es' = es2 /\ UNCHANGED <<prepT, prepD, prepL, phase>>
+ValidateLead(leadOk, ret, es2, posAfter) == ValidateLeadX(leadOk, ret, es2, posAfter, FALSE)
 
-ReadLead(leadOk, ret, es2) ==
+ReadLeadX(leadOk, ret, es2, fault) ==
     /\ phase = "fresh"
     /\ ret = 1 => (leadOk /\ Matches)
-    /\ (es = 0 /\ atStart /\ leadOk /\ Matches) => ret = 1
+    /\ (~fault /\ es = 0 /\ atStart /\ leadOk /\ Matches) => ret = 1
     /\ phase' = IF ret = 1 THEN "lead" ELSE phase
     /\ atStart' = FALSE
     /\ es' = es2 /\ UNCHANGED <<prepT, prepD, prepL>>
+ReadLead(leadOk, ret, es2) == ReadLeadX(leadOk, ret, es2, FALSE)
 
 \* sealed = the stored header checksum equals the checksum of the header bytes (C06)
-ReadHeader(sealed, wellFormed, ret, es2) ==
+ReadHeaderX(sealed, wellFormed, ret, es2, fault) ==
     /\ ret = 1 => (phase = "lead" /\ sealed /\ wellFormed)
-    /\ (es = 0 /\ phase = "lead" /\ sealed /\ wellFormed) => ret = 1
+    /\ (~fault /\ es = 0 /\ phase = "lead" /\ sealed /\ wellFormed) => ret = 1
     /\ phase' = IF ret = 1 THEN "open" ELSE phase
     /\ es' = es2 /\ UNCHANGED <<prepT, prepD, prepL, atStart>>
+ReadHeader(sealed, wellFormed, ret, es2) == ReadHeaderX(sealed, wellFormed, ret, es2, FALSE)
 
 \* the caller rewinds the descriptor and clears a non-fatal error
 Rewind(es2) == /\ atStart' = (phase = "fresh") /\ es' = es2 /\ es2 <= es
